@@ -21,7 +21,7 @@ import re
 from fractions import Fraction
 
 from rkstatic.x_vecexpr import (COMPS, FnView, Formula, Poly, bool_of_stmts, calls_in, commute, flatten, map_terms, poly,
-                                rangearg, show, strip_casts, subst, subst_params, tclean, tkey, unknowns, unroll, vecshape, Inliner)
+                                rangearg, show, strip_casts, subst, subst_params, tclean, tkey, unknowns, unroll, vecshape, Inliner, ctor_fields)
 from rules.C04 import Res, describe_diffs, ret_type, single_return, tdiff
 
 LEVEL = 'other'
@@ -269,15 +269,50 @@ def fam_clamp(res, s, v):
         res.bad(R2, msg, 'clamp')
 
 
+def range_delegation_target(tu, f, v, args):
+    """constructor selected by a delegating initialiser of range_t: the resolved callee in a typed instantiation; in the
+    template pattern the unique other constructor with that many parameters, all of the bound type T, provided every
+    argument visibly has type T (a parameter of type T, an element of a T* parameter, or an explicit T(...) conversion)"""
+    node = getattr(v, 'delegate_node', None)
+    if node is not None:
+        g = tu.callee_fn(tu.strip(node)) or tu.callee_fn(node)
+        if g is not None:
+            return g
+    if not f['dep']:
+        return None
+    fs = signature(tu, f)
+
+    def is_T(a):
+        if a[0] == 'p' and a[1] < len(fs.params):
+            return fs.params[a[1]]['k'] in ('scalar', 'vec')
+        if a[0] == 'idx' and a[1][0] == 'p':
+            return fs.params[a[1][1]]['k'] == 'ptr'
+        if a[0] == 'ctor' and a[1] in ('T', 'bound_t', 'type-parameter-0-0') and len(a[2]) == 1:
+            return True
+        return False
+    if not all(is_T(a) for a in args):
+        return None
+    cands = []
+    for g in tu.functions.values():
+        if g['dep'] and g.get('ctor') and g.get('recid') == f.get('recid') and g['id'] != f['id'] and len(g['params']) == len(args) \
+                and not g.get('implicit'):
+            gs = signature(tu, g)
+            if all(p['k'] in ('scalar', 'vec') for p in gs.params):
+                cands.append(g)
+    return cands[0] if len(cands) == 1 else None
+
+
 def fam_ctor(res, s, v):
     names = s.names
-    ini = v.inits()
-    if ini is None:
-        res.und(R2, 'constructor declaration not found')
+    raw, why = ctor_fields(v.tu, v.f, v, lambda f_, v_, args: range_delegation_target(v.tu, f_, v_, args))
+    if raw is None:
+        res.und(R2, 'constructor: %s' % why)
         return
-    got = {}
-    for fld, t in ini:
-        got[fld] = all_conv(t)
+    got = {fld: all_conv(t) for fld, t in raw.items()}
+    rec = v.tu.node(v.f.get('recid')) or {}
+    for fd in rec.get('inner', ()):
+        if fd.get('kind') == 'FieldDecl' and fd.get('hasInClassInitializer') and fd.get('name') not in got:
+            got[fd.get('name')] = ('?', 'default member initialiser')
     for st in v.body():
         if st[0] == 'expr' and st[1][0] == 'asg' and st[1][1] == '=' and st[1][2][0] == 'm' and st[1][2][1] == THIS:
             got[st[1][2][2]] = all_conv(st[1][3])
@@ -579,15 +614,37 @@ def fam_poly(res, s, v, expected, what):
         res.bad(R3, '%s computes `%r`, the definition is `%r`' % (what, pa, pe), 'polynomial')
 
 
-def fam_range_arith(res, s, v, op):
+def fam_range_arith(res, s, v, op, tu=None):
     """range op scalar / scalar op range -> range(lower op s, upper op s)"""
     names = s.names
     t = single_return(v)
+    ri = s.kinds.index('range')
+    si = 1 - ri
+    if t is not None and t[0] == 'b' and t[1] == op and tu is not None:
+        # `return range * scale;`: forwards to the sibling overload with the operands in its order
+        sib = None
+        for nm, q, node in v.callees:
+            if nm == 'operator' + op:
+                g = tu.callee_fn(node)
+                if g is not None and tu.fn_file(g) == RANGE_H and g['id'] != v.f['id']:
+                    sib = g
+        if sib is None and v.f['dep']:
+            cands = [g for g in tu.functions.values() if g['dep'] and not g.get('rec') and tu.fn_file(g) == RANGE_H and g['id'] != v.f['id']
+                     and (tu.node(g['id']) or {}).get('name') == 'operator' + op and len(g['params']) == 2]
+            cands = [g for g in cands if [p['k'] for p in signature(tu, g).params] == [
+                ('range' if x[0] == 'p' and s.params[x[1]]['k'] == 'range' else 'scalar' if x[0] == 'p' else '?') .replace('scalar', s.params[si]['k'])
+                for x in (t[2], t[3])]]
+            sib = cands[0] if len(cands) == 1 else None
+        if sib is not None:
+            body = single_return(FnView(tu, sib))
+            if body is not None:
+                t = subst_params(body, (t[2], t[3]))
+    if t is not None and t[0] == 'b' and t[1] in ('+', '-', '*', '/') and t[1] != op and {t[2], t[3]} == {('p', ri), ('p', si)}:
+        res.bad(R3, 'operator%s(range) forwards to `%s`: a different operation on the same operands' % (op, show(t, names)), 'arith-forward')
+        return
     if t is None or t[0] != 'ctor' or len(t[2]) != 2:
         res.und(R3, 'operator%s(range): body is not `return range(lo, hi)`' % op)
         return
-    ri = s.kinds.index('range')
-    si = 1 - ri
     bad = False
     for slot, fld in ((t[2][0], LO), (t[2][1], HI)):
         e = ('b', op, M(('p', ri), fld), ('p', si))
@@ -1195,7 +1252,7 @@ def classify(tu, f, s, file):
             return 'stream output', fam_stream
         if name in ('operator*', 'operator+') and sorted(k) in (['range', 'scalar'], ['range', 'vec']):
             op = name[-1]
-            return 'scale/translate', lambda res, s, v: fam_range_arith(res, s, v, op)
+            return 'scale/translate', lambda res, s, v: fam_range_arith(res, s, v, op, tu)
         if name in ('operator==', 'operator!=') and k == ['range', 'range']:
             a, b = ('p', 0), ('p', 1)
             sp = ('b', '&&', ('b', '==', M(a, LO), M(b, LO)), ('b', '==', M(a, HI), M(b, HI)))
